@@ -25,6 +25,7 @@ EXTRA_STUBS = dyn.EXTRA_STUBS
 REQUIRED_WITNESSES = ['success_exploit', 'success_service_scan', 'failure', 'flag_conn', 'flag_perm']
 STUBS, ASSUMPTIONS, BOUNDS = common.STUBS, common.ASSUMPTIONS, common.BOUNDS
 describe = common.describe
+prefer = common.prefer
 
 
 def queries(tier, seed=0):
